@@ -14,7 +14,7 @@ import vlib
 
 SRC = vlib.BASE_SRC + vlib.EVENT_SRC + ["flow/action.cpp", "flow/action_executor.cpp", "util/variables.cpp", "util/string.cpp", "util/json.cpp"]
 ACTIONS = ["AppendOp", "FinishOp", "PassOp", "CancelCurrentOp", "CancelOp", "CancelAllOp", "DestroyOp"]
-MAXLINES = 40000
+MAXLINES = 45000
 OPS = ("append", "finish", "pass", "cancel", "cancelCurrent", "cancelAll")
 
 
@@ -37,7 +37,7 @@ def validate(ctx, exe, args, trace, what, cfg="Trace_ActionExecutor.cfg"):
 def run_scripts(ctx, exe, scripts, tag):
     chunks, cur, n = [], [], 0
     for s in scripts:
-        w = 5 * len(s["ops"]) + 8            # upper bound of the trace lines of a short script
+        w = 4 * len(s["ops"]) + 4            # estimate of its trace lines (call + events + ret per op, destroy, Reset)
         if cur and n + w > MAXLINES:
             chunks.append(cur)
             cur, n = [], 0
@@ -95,18 +95,19 @@ def run(ctx):
     ctx.sample({"kind": "model behaviour (4 calls) replayed on the real ActionExecutor", "script": s4[len(s4) // 3]})
     if not run_scripts(ctx, exe, s4, "gen4"):
         return
-    s5 = unique_scripts(ctx.tlc_gen("ActionExecutor", "Gen_ActionExecutor.tla", "Gen_d5.cfg"))
-    n5 = len(s5)
-    if ctx.quick():
-        s5 = rnd.sample(s5, min(len(s5), 3000))
-    ctx.notes.append("call sequences of length 4: %d (all executed); of length 5: %d generated, %d executed" % (len(s4), n5, len(s5)))
+    if ctx.quick():         # a seeded sample of the 5-call sequences: random walks of the generator (one worker: reproducible)
+        s5 = unique_scripts(ctx.tlc_gen("ActionExecutor", "Gen_ActionExecutor.tla", "Gen_d5.cfg", simulate=(700, 8), workers=1, timeout=120, limit=3000))
+        ctx.notes.append("call sequences of length 4: %d (all executed); of length 5: %d sampled by seeded random walks" % (len(s4), len(s5)))
+    else:
+        s5 = unique_scripts(ctx.tlc_gen("ActionExecutor", "Gen_ActionExecutor.tla", "Gen_d5.cfg"))
+        ctx.notes.append("call sequences of length 4: %d, of length 5: %d (all executed)" % (len(s4), len(s5)))
     pre = [s for s in s5 if [o["o"] for o in s["ops"]].count("append") >= 2 and any(o["o"] == "finish" for o in s["ops"])]
     ctx.sample({"kind": "model behaviour (5 calls) replayed on the real ActionExecutor", "script": (pre or s5)[0]})
     if not run_scripts(ctx, exe, s5, "gen5"):
         return
     # 3. code -> spec: seeded random histories
-    nexec, nops = (600, 40) if ctx.quick() else (8000, 40)
-    per = MAXLINES // (nops * 5)
+    nexec, nops = (1000, 40) if ctx.quick() else (8000, 40)
+    per = MAXLINES // (nops * 4)
     done, k = 0, 0
     while done < nexec:
         n = min(per, nexec - done)
